@@ -720,3 +720,76 @@ Theorem C11_fivecells_solve_reports : forall oracle, oracle_sound_on oracle -> o
 Proof. exact fivecells_solve_reports. Qed.
 Print Assumptions C11_fivecells_solve_reports.
 
+
+(* ---- the five modules of cspuz.puzzle outside the property's anchor list (firefly, magnets, nanro, nurimaze, slalom) are
+   covered in the same way: rule specification, plug-in (Tier 2 + search), Tier-1 model and theorem. *)
+
+(* Tier 1, magnets, every board shape, plate layout (to_right / to_down flags) and clue vector; rule 1 is stated per plate
+   (for a proper domino division exactly the published rule), so no tiling hypothesis is needed *)
+From Cspuz Require Import Puzzle.Rules_magnets Puzzle.Magnets Puzzle.MagnetsProofs.
+Theorem C11_magnets_exact : forall h w tr td rp rm cp cm st ans,
+  solve_magnets_model (List.cons (List.cons (Z.of_nat h) (List.cons (Z.of_nat w) nil))
+     (List.cons tr (List.cons td (List.cons rp (List.cons rm (List.cons cp (List.cons cm nil))))))) = Ok st ->
+  ((exists en, model_of no_graph en st /\ reads st en (seq 0 (2 * (h * w))) = ans)
+   <-> rules_magnets (List.cons (List.cons (Z.of_nat h) (List.cons (Z.of_nat w) nil))
+     (List.cons tr (List.cons td (List.cons rp (List.cons rm (List.cons cp (List.cons cm nil))))))) ans = true).
+Proof. exact magnets_exact. Qed.
+Print Assumptions C11_magnets_exact.
+
+Theorem C11_magnets_model_defined : forall (h w : nat) (tr td rp rm cp cm : list Z),
+  (h * w <= length tr)%nat -> (h * w <= length td)%nat ->
+  (h <= length rp)%nat -> (h <= length rm)%nat -> (w <= length cp)%nat -> (w <= length cm)%nat ->
+  mag_rim_flag h w tr td = false ->
+  exists st, solve_magnets_model (List.cons (List.cons (Z.of_nat h) (List.cons (Z.of_nat w) nil))
+     (List.cons tr (List.cons td (List.cons rp (List.cons rm (List.cons cp (List.cons cm nil))))))) = Ok st.
+Proof. exact magnets_model_defined. Qed.
+Print Assumptions C11_magnets_model_defined.
+
+From Cspuz Require Import Puzzle.MagnetsWf.
+Theorem C11_magnets_solve_reports : forall oracle, oracle_sound_on oracle -> oracle_complete_on oracle ->
+  forall h w tr td rp rm cp cm st,
+  solve_magnets_model (List.cons (List.cons (Z.of_nat h) (List.cons (Z.of_nat w) nil))
+     (List.cons tr (List.cons td (List.cons rp (List.cons rm (List.cons cp (List.cons cm nil))))))) = Ok st ->
+  solve_reports oracle st (seq 0 (2 * (h * w)))
+    (rules_magnets (List.cons (List.cons (Z.of_nat h) (List.cons (Z.of_nat w) nil))
+     (List.cons tr (List.cons td (List.cons rp (List.cons rm (List.cons cp (List.cons cm nil)))))))).
+Proof. exact magnets_solve_reports. Qed.
+Print Assumptions C11_magnets_solve_reports.
+
+(* Tier 1, nanro, every board shape, every room layout (rooms given as room ids 0..k-1; an id that no cell carries is
+   an empty room) and every layout of given numbers: the program posted by solve_nanro (model Puzzle/Nanro.v - has_num,
+   the cell values with has_num <-> value != 0, graph.active_vertices_connected on has_num = the model of property C04,
+   then the per-room counters `nonempty` and the room / given-number / 2x2 / room-border constraints - tied to the Python
+   by program capture) has a model whose answer-key variables (the cell values, ids h*w .. 2*h*w-1; has_num, ranks, root
+   flags and the counters are existential) read as [ans] exactly when [ans] obeys the published rules.  Connectivity of the
+   numbered cells through property C04's theorems (NanroCompose.avc_mid_*: the connectivity call sits in the middle of the
+   program).  The hypothesis holds exactly for the problems with at least one cell, a full room grid without negative
+   ids and a full grid of given numbers (C11_nanro_model_defined). *)
+From Cspuz Require Import Graph.Avc Puzzle.Rules_norinori Puzzle.Rules_nanro Puzzle.Nanro Puzzle.NanroProofs Puzzle.NanroWf.
+Theorem C11_nanro_exact : forall h w room num st ans,
+  solve_nanro_model (List.cons (List.cons (Z.of_nat h) (List.cons (Z.of_nat w) nil)) (List.cons room (List.cons num nil))) = Ok st ->
+  ((exists en, model_of gsem_avc en st /\ reads st en (seq (h * w) (h * w)) = ans)
+   <-> rules_nanro (List.cons (List.cons (Z.of_nat h) (List.cons (Z.of_nat w) nil)) (List.cons room (List.cons num nil))) ans = true).
+Proof. exact nanro_exact. Qed.
+Print Assumptions C11_nanro_exact.
+
+Theorem C11_nanro_keys : forall h w room num st,
+  solve_nanro_model (List.cons (List.cons (Z.of_nat h) (List.cons (Z.of_nat w) nil)) (List.cons room (List.cons num nil))) = Ok st ->
+  keys st = (repeat false (h * w) ++ repeat true (h * w) ++ repeat false (h * w) ++ repeat false (h * w) ++
+             repeat false (n_regions room))%list.
+Proof. exact nanro_keys. Qed.
+Print Assumptions C11_nanro_keys.
+
+Theorem C11_nanro_model_defined : forall h w room num,
+  (exists st, solve_nanro_model (List.cons (List.cons (Z.of_nat h) (List.cons (Z.of_nat w) nil)) (List.cons room (List.cons num nil))) = Ok st)
+  <-> (forallb (fun z => (0 <=? z)%Z) room = true /\ (0 < h * w <= length room)%nat /\ (h * w <= length num)%nat).
+Proof. exact nanro_model_defined. Qed.
+Print Assumptions C11_nanro_model_defined.
+
+Theorem C11_nanro_solve_reports : forall oracle, oracle_sound_on oracle -> oracle_complete_on oracle ->
+  forall h w room num st,
+  solve_nanro_model (List.cons (List.cons (Z.of_nat h) (List.cons (Z.of_nat w) nil)) (List.cons room (List.cons num nil))) = Ok st ->
+  solve_reports oracle st (seq (h * w) (h * w))
+    (rules_nanro (List.cons (List.cons (Z.of_nat h) (List.cons (Z.of_nat w) nil)) (List.cons room (List.cons num nil)))).
+Proof. exact nanro_solve_reports. Qed.
+Print Assumptions C11_nanro_solve_reports.
